@@ -59,7 +59,7 @@ def strategy(tier):
 
     @st.composite
     def cases(draw):
-        v = draw(st.sampled_from(VARIANTS + ["sympy_poly", "sympy_analytic", "sympy_analytic"]))
+        v = draw(st.sampled_from(VARIANTS + ["sympy_poly", "sympy_analytic", "sympy_analytic", "rotated_unitary", "rotated_unitary", "biorthogonal"]))
         if v in ("sympy_poly", "sympy_analytic"):
             p = draw(small)
         elif v == "biorthogonal":
@@ -226,6 +226,17 @@ def check_case(case, enforce_all=False):
         if cplx:
             p["repr"] = "dense"
             out.labels.append("sympy->dense(complex-data)")
+    if p["repr"] != "sympy" and p.get("ref_shift") and v in ("rotated_unitary", "biorthogonal", "operator_to_BlockSeries"):
+        # A 3-4-5 rotation of levels sitting on the offset 4096 is not exactly representable in floating point: the
+        # rotated H_0 is block diagonal only up to ~4096 x 2e-16 ~ 1e-12, which is the library's (absolute, documented)
+        # tolerance for "H_0 is block diagonal" - the input would violate a precondition, not the library the property.
+        # The float versions of these variants therefore run without the common offset (shift covariance is C15's).
+        sh = p["ref_shift"]
+        en = [e - sh for e in p["energy"]]
+        if not any(en) and not any(p["eimag"]):
+            en = [e + p["eden"] for e in en]
+        p = dict(p, energy=en, ref_shift=0)
+        out.labels.append("offset-removed-for-float-rotation")
     rep = p["repr"]
     out.labels += bd_checks.labels_for(p) + [f"variant={v}", "mode=hermitian" if p["hermitian"] else "mode=nonhermitian"]
     st_ = states_of(p)
@@ -382,6 +393,11 @@ def check_case(case, enforce_all=False):
         kw.pop("subspace_indices")
         Lmat = Rinv.H
         conv = (lambda M: M) if rep == "sympy" else (lambda M: np.array(M.evalf(30).tolist(), dtype=complex))
+        if rep == "sparse":
+            # sparse problems hand over sparse (complex, for "c" rotations) eigenvectors as well
+            dense_conv = conv
+            conv = lambda M: sparse.csr_array(dense_conv(M))  # noqa: E731
+            out.labels.append("sparse-eigenvectors")
         if v == "rotated_unitary":
             kw["subspace_eigenvectors"] = [conv(R[:, s]) for s in st_]
         else:
@@ -391,6 +407,10 @@ def check_case(case, enforce_all=False):
         Rinv = R.inv()
         Lmat = Rinv.H
         conv = (lambda M: M) if rep == "sympy" else (lambda M: np.array(M.evalf(30).tolist(), dtype=complex))
+        if rep == "sparse":
+            dense_conv2 = conv
+            conv = lambda M: sparse.csr_array(dense_conv2(M))  # noqa: E731
+            out.labels.append("sparse-eigenvectors")
         A = {o: _typed(M, rep) for o, M in sym.items()}
         vecs = [(conv(R[:, s]), conv(Lmat[:, s])) for s in st_] if not p["hermitian"] else [conv(R[:, s]) for s in st_]
         try:
